@@ -3351,6 +3351,9 @@ def __var_direct_link_to_py_ast(
         safe_ns = _var_ns_as_python_sym(var_ns.name)
         aliased_ns_name = __name_in_module(safe_ns, current_ns.module)
         if aliased_ns_name is not None:
+            # Likewise for the module global holding the other namespace's module
+            if ctx.symbol_table.is_local_python_name(aliased_ns_name):
+                return None
             return GeneratedPyAST(
                 node=_load_attr(
                     f"{aliased_ns_name}.{safe_name}",
